@@ -1,7 +1,7 @@
 (* C12 - the G.711 tables of _sphere.py (regenerated into gen/Sphere.v) against
    the ITU-T expansion formulas: exhaustive over all 256 codes. *)
 From Coq Require Import ZArith List Bool Lia.
-From Verif Require Import lib.C12_Py lib.C12_ZList gen.Sphere C12.Model.
+From Verif Require Import lib.C12_Py lib.C12_ZList gen.Sphere C12.Model C12.Spec.
 Import ListNotations.
 Open Scope Z_scope.
 
@@ -19,7 +19,6 @@ Proof.
   intros H c Hc. rewrite forallb_forall in H. apply H. now apply codes_complete.
 Qed.
 
-Definition nthz (l : list Z) (c : Z) : Z := nth (Z.to_nat c) l 0.
 
 Lemma ulaw_table_l : length ULAW2PCM = 256%nat /\ forall c, 0 <= c < 256 -> nthz ULAW2PCM c = ulaw_expand c.
 Proof.
